@@ -39,6 +39,8 @@ pub mod rt {
         pub want: Want,
         pub finished: bool,
         pub name: Option<String>,
+        /// each thread parks on its own condition variable, so a hand-off wakes exactly one thread
+        pub cv: Arc<Condvar>,
     }
 
     #[derive(Debug, Default)]
@@ -99,7 +101,7 @@ pub mod rt {
         pub root_done: bool,
         pub diverged: bool,
         pub step_cap_hit: bool,
-        pub os_handles: Vec<std::thread::JoinHandle<()>>,
+        pub os_handles: Vec<super::ospool::Ticket>,
         pub steps: usize,
         pub max_steps: usize,
         pub trace_hash: u64,
@@ -217,6 +219,7 @@ pub mod rt {
                 return self.bail();
             }
             self.pick(&mut g, me);
+            let cv = g.threads[me].cv.clone();
             loop {
                 if g.aborting {
                     drop(g);
@@ -225,7 +228,7 @@ pub mod rt {
                 if g.current == me {
                     break;
                 }
-                g = self.cv.wait(g).unwrap();
+                g = cv.wait(g).unwrap();
             }
             g.threads[me].want = Want::Run;
         }
@@ -243,7 +246,9 @@ pub mod rt {
                 .collect();
             g.aborting = true;
             g.current = usize::MAX;
-            self.cv.notify_all();
+            for t in &g.threads {
+                t.cv.notify_all();
+            }
         }
 
         fn pick(&self, g: &mut Inner, me: usize) {
@@ -295,7 +300,7 @@ pub mod rt {
             let cur = g.current as u64;
             g.mix(0xabcd ^ (cur << 16));
             if g.current != me {
-                self.cv.notify_all();
+                g.threads[g.current].cv.notify_one();
             }
         }
 
@@ -347,7 +352,7 @@ pub mod rt {
         let rt = Arc::new(Rt {
             inner: StdMutex::new(Inner {
                 current: 0,
-                threads: vec![Th { want: Want::Run, finished: false, name: Some("root".into()) }],
+                threads: vec![Th { want: Want::Run, finished: false, name: Some("root".into()), cv: Arc::new(Condvar::new()) }],
                 mutexes: vec![],
                 rwlocks: vec![],
                 chans: vec![],
@@ -370,35 +375,39 @@ pub mod rt {
             }),
             cv: Condvar::new(),
         });
-        let rt2 = rt.clone();
-        let root_panic = std::thread::scope(|s| {
-            s.spawn(move || {
-                install(rt2.clone(), 0);
-                let r = catch_unwind(AssertUnwindSafe(|| body()));
-                let out = match r {
-                    Ok(()) => {
-                        rt2.finish(0);
-                        None
-                    }
-                    Err(e) if e.is::<Abort>() => None,
-                    Err(e) => {
-                        let mut g = rt2.inner.lock().unwrap();
-                        rt2.end(&mut g);
-                        Some(panic_text(&e))
-                    }
-                };
-                uninstall();
-                out
-            })
-            .join()
-            .unwrap()
-        });
+        // The body runs on the calling thread as thread 0 of the execution.
+        let root_panic = {
+            let rt2 = rt.clone();
+            install(rt2.clone(), 0);
+            let r = catch_unwind(AssertUnwindSafe(|| body()));
+            let out = match r {
+                Ok(()) => {
+                    rt2.finish(0);
+                    None
+                }
+                Err(e) if e.is::<Abort>() => None,
+                Err(e) => {
+                    let mut g = rt2.inner.lock().unwrap();
+                    rt2.end(&mut g);
+                    Some(panic_text(&e))
+                }
+            };
+            uninstall();
+            out
+        };
+        // thread 0 has returned; wait until the scheduler has ended the execution (the remaining
+        // threads drain without it) before tearing down
+        {
+            let mut g = rt.inner.lock().unwrap();
+            let cv = g.threads[0].cv.clone();
+            while !g.aborting {
+                g = cv.wait(g).unwrap();
+            }
+        }
         loop {
             let h = rt.inner.lock().unwrap().os_handles.pop();
             match h {
-                Some(h) => {
-                    let _ = h.join();
-                }
+                Some(h) => h.wait(),
                 None => break,
             }
         }
@@ -755,6 +764,14 @@ pub mod thread {
 
     pub use std::thread::{current, panicking};
 
+    /// Name of the calling logical thread (the OS thread underneath is recycled and unnamed).
+    pub fn verif_current_name() -> Option<String> {
+        match cur() {
+            Some((rt, me)) => rt.with(|g| g.threads[me].name.clone()).flatten(),
+            None => std::thread::current().name().map(|s| s.to_string()),
+        }
+    }
+
     pub fn sleep(d: Duration) {
         if let Some((rt, me)) = cur() {
             let until = rt.now().saturating_add(d.as_nanos() as u64);
@@ -821,7 +838,7 @@ pub mod thread {
         if let Some((rt, me)) = cur() {
             rt.point(me, Want::Run);
             let tid = rt.with(|g| {
-                g.threads.push(Th { want: Want::Run, finished: false, name: name.clone() });
+                g.threads.push(Th { want: Want::Run, finished: false, name: name.clone(), cv: Arc::new(std::sync::Condvar::new()) });
                 g.threads.len() - 1
             });
             let tid = match tid {
@@ -832,31 +849,31 @@ pub mod thread {
                 }
             };
             let rt2 = rt.clone();
-            let h = b
-                .spawn(move || {
-                    rt::install(rt2.clone(), tid);
-                    {
-                        let mut g = rt2.inner.lock().unwrap();
-                        while g.current != tid && !g.aborting {
-                            g = rt2.cv.wait(g).unwrap();
-                        }
-                        if g.aborting {
-                            drop(g);
-                            // drop the closure (and everything it owns) as an unwinding thread would
-                            let _ = catch_unwind(AssertUnwindSafe(move || drop(f)));
-                            rt::uninstall();
-                            return;
-                        }
+            let _ = b;
+            let h = super::ospool::run(Box::new(move || {
+                rt::install(rt2.clone(), tid);
+                {
+                    let mut g = rt2.inner.lock().unwrap();
+                    let cv = g.threads[tid].cv.clone();
+                    while g.current != tid && !g.aborting {
+                        g = cv.wait(g).unwrap();
                     }
-                    let r = catch_unwind(AssertUnwindSafe(f));
-                    let aborted = matches!(&r, Err(e) if e.is::<Abort>());
-                    if !aborted {
-                        *res2.lock().unwrap() = Some(r);
-                        rt2.finish(tid);
+                    if g.aborting {
+                        drop(g);
+                        // drop the closure (and everything it owns) as an unwinding thread would
+                        let _ = catch_unwind(AssertUnwindSafe(move || drop(f)));
+                        rt::uninstall();
+                        return;
                     }
-                    rt::uninstall();
-                })
-                .expect("verif: OS thread could not be spawned");
+                }
+                let r = catch_unwind(AssertUnwindSafe(f));
+                let aborted = matches!(&r, Err(e) if e.is::<Abort>());
+                if !aborted {
+                    *res2.lock().unwrap() = Some(r);
+                    rt2.finish(tid);
+                }
+                rt::uninstall();
+            }));
             rt.inner.lock().unwrap().os_handles.push(h);
             JoinHandle { tid: Some(tid), h: None, res }
         } else {
@@ -885,6 +902,59 @@ pub mod thread {
         pub fn verif_tid(&self) -> Option<usize> {
             self.tid
         }
+    }
+}
+
+/// Cache of parked OS threads: the controlled scheduler starts thousands of short executions per
+/// second, and creating an OS thread for each logical thread makes the kernel's address-space lock
+/// the bottleneck. Logical threads of an execution run on recycled OS threads instead.
+pub mod ospool {
+    use std::sync::mpsc::{channel, Sender};
+    use std::sync::{Arc, Condvar, Mutex};
+
+    type Job = Box<dyn FnOnce() + Send + 'static>;
+    static IDLE: Mutex<Vec<Sender<(Job, Arc<(Mutex<bool>, Condvar)>)>>> = Mutex::new(Vec::new());
+
+    pub struct Ticket(Arc<(Mutex<bool>, Condvar)>);
+    impl Ticket {
+        pub fn wait(&self) {
+            let mut g = self.0 .0.lock().unwrap();
+            while !*g {
+                g = self.0 .1.wait(g).unwrap();
+            }
+        }
+    }
+
+    pub fn run(job: Job) -> Ticket {
+        let done = Arc::new((Mutex::new(false), Condvar::new()));
+        let mut item = (job, done.clone());
+        loop {
+            let tx = IDLE.lock().unwrap().pop();
+            match tx {
+                Some(tx) => match tx.send(item) {
+                    Ok(()) => break,
+                    Err(e) => item = e.0,
+                },
+                None => {
+                    let (tx, rx) = channel::<(Job, Arc<(Mutex<bool>, Condvar)>)>();
+                    let tx2 = tx.clone();
+                    std::thread::Builder::new()
+                        .name("verif-os".into())
+                        .spawn(move || {
+                            while let Ok((job, done)) = rx.recv() {
+                                let _ = std::panic::catch_unwind(std::panic::AssertUnwindSafe(job));
+                                IDLE.lock().unwrap().push(tx2.clone());
+                                *done.0.lock().unwrap() = true;
+                                done.1.notify_all();
+                            }
+                        })
+                        .expect("verif: OS thread could not be spawned");
+                    tx.send(item).ok();
+                    break;
+                }
+            }
+        }
+        Ticket(done)
     }
 }
 
